@@ -134,6 +134,25 @@ func verifRefStr(op string, a, b string) verifRef {
 
 var verifStrs = []string{"", "a", "ab"}
 
+var verifPowInts = [][2]int64{{2, 10}, {7, 0}, {0, 0}, {-3, 3}, {-3, 4}, {2, -1}, {10, -2}, {-1, -3}, {1, -5}, {0, 5}, {3, 39}, {2, 62}, {10, 15}, {-2, 31}}
+var verifPowFloats = [][2]float64{{2, 10}, {2, 0.5}, {1.5, 2}, {2, -1}, {0, 0}, {-8, 3}, {10, -2}, {0.5, 3}}
+
+// verifRefPowInt: `a ** b` for concrete operands is defined where the mathematical result is an
+// exactly representable integer below 2^53 (non-negative exponent).
+func verifRefPowInt(a, b int64) verifRef {
+	if b < 0 || b > 64 {
+		return verifRef{anyResult: true}
+	}
+	r := int64(1)
+	for k := int64(0); k < b; k++ {
+		r *= a
+		if r > 1<<53 || r < -(1<<53) {
+			return verifRef{anyResult: true}
+		}
+	}
+	return verifRef{text: fmt.Sprint(r)}
+}
+
 // verifCheckRun applies the mode's oracle to one accepted program.
 func verifCheckRun(mode int, an verifAnalysis, inputs []verifInput, ref verifRef, wantOut string) {
 	var vm, tr verifOutcome
@@ -213,13 +232,32 @@ func VerifHarness_Ops() {
 	errors.VerifTag("type", []string{"int", "float", "bool", "str"}[ty])
 	var inputs []verifInput
 	var ref verifRef
+	concretePow := false
 	switch ty {
 	case 0:
 		a, b := errors.VerifNdInt64("A"), errors.VerifNdInt64("B")
+		if op == "**" {
+			// math.Pow has no SMT theory (it is an uninterpreted function in the encoding): besides the
+			// symbolic case, `**` is case-split over boundary operand pairs that are evaluated concretely.
+			if pc := errors.VerifNdIntRange("powcase", 0, len(verifPowInts)); pc > 0 {
+				a, b = verifPowInts[pc-1][0], verifPowInts[pc-1][1]
+				concretePow = true
+				errors.VerifTag("pow", fmt.Sprint(a, "**", b))
+			}
+		}
 		inputs = []verifInput{{name: "L", kind: 'i', i: a}, {name: "R", kind: 'i', i: b}}
 		ref = verifRefInt(op, a, b)
+		if concretePow {
+			ref = verifRefPowInt(a, b)
+		}
 	case 1:
 		a, b := errors.VerifNdFloat64("X"), errors.VerifNdFloat64("Y")
+		if op == "**" {
+			if pc := errors.VerifNdIntRange("powcase", 0, len(verifPowFloats)); pc > 0 {
+				a, b = verifPowFloats[pc-1][0], verifPowFloats[pc-1][1]
+				errors.VerifTag("pow", fmt.Sprint(a, "**", b))
+			}
+		}
 		inputs = []verifInput{{name: "L", kind: 'f', f: a}, {name: "R", kind: 'f', f: b}}
 		ref = verifRefFloat(op, a, b)
 	case 2:
